@@ -73,7 +73,12 @@ def _config(rng, kind):
         lo = max(wf_idx)
         if lo <= n - 1:
             cap = rng.randint(lo, n - 1) + 0.5
-    return {"n_intf": n, "moves": moves, "cap": cap,
+    extra = {}
+    if kind == "wf0only" and cap is not None:
+        # the axis is shifted so that the configured cap is exactly 0.0 (a
+        # legal value that is falsy): the exact answers do not depend on it
+        extra["shift"] = -cap
+    return {**extra, "n_intf": n, "moves": moves, "cap": cap,
             "workers": rng.randint(1, n - 1),
             "policy": rng.choice(F.POLICIES), "n_jumps": rng.choice([2, 3]),
             "wall": rng.choice([-2, -3]), "kind": kind}
@@ -144,7 +149,7 @@ def plan(tier, seed):
     return jobs
 
 
-def estimate(cdir, n_intf, burn=0.1):
+def estimate(cdir, n_intf, burn=0.1, shift=0.0):
     """Per plus-ensemble (num, den, rows) from the data file."""
     from vf.rig_sched import parse_data_file
     rows = parse_data_file(os.path.join(cdir, "infretis_data.txt"))
@@ -167,7 +172,7 @@ def estimate(cdir, n_intf, burn=0.1):
             den += c
             cnt += 1
             # lambda_{j+1} = j + 1.5 ; sites are integers
-            if r["maxop"] > j + 1.5:
+            if r["maxop"] > j + 1.5 + shift:
                 num += c
         out.append((num, den, cnt))
     return out, None
@@ -296,7 +301,8 @@ def work(job, scratch):
             res["violations"].append(dict(v, spec=F.brief(spec)))
         res["x_est"] = None
         return res
-    est, err = estimate(cdir, spec["n_intf"])
+    est, err = estimate(cdir, spec["n_intf"],
+                        shift=float(spec.get("shift", 0.0)))
     if err:
         res["violations"].append({"mech": "data-row-inconsistent",
                                   "what": err, "spec": F.brief(spec)})
